@@ -39,8 +39,8 @@ TECHNIQUE = "property-based testing (Hypothesis) with an independent inventory o
 LEVEL_TEXT = ("Exploration: thousands of generated cell histories per run; for every step every element (incl. H, O) and the net "
               "charge are summed over all reservoirs of the before- and after-dumps and compared to 1e-6 relative; no amount negative.")
 FLOORS = {"quick": 200, "thorough": 3000}
-SHARDS = {"quick": 4, "thorough": 4}
-BUDGET = {"quick": 110, "thorough": 6400, "replay": 1}
+SHARDS = {"quick": 8, "thorough": 16}
+BUDGET = {"quick": 110, "thorough": 1600, "replay": 1}
 DBS = {"quick": ("phreeqc.dat", "phreeqc.dat", "phreeqc.dat", "wateq4f.dat", "pitzer.dat"),
        "thorough": ("phreeqc.dat", "phreeqc.dat", "wateq4f.dat", "pitzer.dat")}
 
